@@ -110,6 +110,19 @@ def echo_scripts(rnd, work):
                     if len(v_) > 1:
                         cands.append(sep.join(v_))
                 cands += [v_ + v_, "(" + v_ + ")", "[" + v_ + "]", "'" + v_ + "'", '"' + v_ + '"', v_ + ".", v_ + ",", v_ + ";", v_ + ":", ":" + v_, "=" + v_, v_ + "\u200b", "\ufeff" + v_, v_ + "\x00", v_[:1] + "\u0301" + v_[1:]]
+            # answers shaped like the grammar the builder is producing: this metric's field, another metric's, two fields, a prefixed
+            # field, a whole vector, several colons (what gets pasted from an existing vector)
+            other = metrics[(k + 1) % len(metrics)]
+            whole = corpus.random_vector(rnd, ver)[3]
+            for v_ in vals:
+                cands += [m + ":" + v_, (m + ":" + v_).lower(), m + "=" + v_, m + " " + v_, m + ":" + v_ + "/", "/" + m + ":" + v_,
+                          m + ":" + v_ + "/" + other + ":" + corpus.VALS[ver][other][0], other + ":" + v_, corpus.prefix(ver, 1 if ver == "3" else -1) + m + ":" + v_]
+            cands += [whole, "/".join(whole.split("/")[:3]), "::", "a:b:c", m + "::" + vals[0], ":" + vals[0] + ":", m + ":", ":" + m]
+            # one letter of a legal value replaced by what case mapping, the pattern engine or normalisation take for that letter
+            for v_ in vals:
+                for pos_ in range(len(v_)):
+                    for c_ in corpus.confusables(v_[pos_], cap=8):
+                        cands.append(v_[:pos_] + c_ + v_[pos_ + 1:])
             cands += [c_.lower() for c_ in cands]
             cands = [c_ for c_ in dict.fromkeys(cands) if c_.strip() and c_.strip().upper() not in legal]
             script = [corpus.VALS[ver][x][0] for x in metrics[:k]] + cands + [corpus.VALS[ver][x][0] for x in metrics[k:]]
